@@ -231,6 +231,8 @@ inductive Conv
   | groupMean (groups : List (List Nat))  -- out[i] = mean of v[j], j ∈ groups[i]
   | comp (f g : Conv)                     -- f after g
   | fail (e : String)
+  | table (t : List (List Rat × List Rat)) -- leaf data: the geometry's own map recorded sample by sample (any map,
+                                          -- e.g. softmax or x/‖x‖ that couples the entries of one sample); unknown argument ⇒ KeyError
 
 def Conv.apply : Conv → List Rat → Except String (List Rat)
   | .id, v => .ok v
@@ -240,5 +242,8 @@ def Conv.apply : Conv → List Rat → Except String (List Rat)
   | .groupMean gs, v => .ok (gs.map (fun g => mean (g.map (fun j => v.getD j 0))))
   | .comp f g, v => do let w ← g.apply v; f.apply w
   | .fail e, _ => .error e
+  | .table t, v => match t.find? (fun kv => kv.1 == v) with
+    | some kv => .ok kv.2
+    | none => .error "KeyError"
 
 end CuqiVerif.C19
